@@ -97,6 +97,7 @@ func (n *OneToOneNode) backward(proc *process.Process) {
 	for backPck := range outWriter.Receive() {
 		n.tracer.Receive(outWriter, backPck)
 	}
+	n.tracer.Drop(outWriter)
 }
 
 func (n *OneToOneNode) catch(proc *process.Process) {
@@ -105,4 +106,5 @@ func (n *OneToOneNode) catch(proc *process.Process) {
 	for backPck := range errWriter.Receive() {
 		n.tracer.Receive(errWriter, backPck)
 	}
+	n.tracer.Drop(errWriter)
 }
